@@ -25,6 +25,7 @@ ASSUMPTIONS = ["the wall-clock gate of save_simulation is bypassed by the harnes
                "bitstrings are samples: the RNG state is not part of an autosave, so counts are compared through totals and "
                "near-deterministic positions, not literally",
                "noisy clause is statistical (alpha 1e-7 per run)"]
+UNITS_NAME = "crash_points_resumed"
 EXHAUSTIVE_NOTE = "thorough tier: every save point k of every generated run is enumerated"
 
 
@@ -131,7 +132,7 @@ def check_case(case) -> Result:
             return None
 
         perm_nontrivial = case["order"] != sorted(case["order"]) and cfg.optimize_qubit_ordering
-        r.info = {"saves": K, "crash_points": ks}
+        r.info = {"saves": K, "crash_points": ks, "units": len(ks)}
         inside = 0
         for k in ks:
             e2e.seed_all(case["seed"])
